@@ -73,3 +73,17 @@ func verifNotify(db *DB, kind string, batch *Batch, key, value []byte) error {
 	return nil
 }
 `
+
+// clockFeature makes utility.GetTime consult the harness clock (hook H1b, verifClock) first:
+// the harness then decides what every single call of the node's clock returns.
+func clockFeature(repo, out string, replace map[string]string) {
+	f := filepath.Join(repo, "src", "utility", "time.go")
+	b, err := os.ReadFile(f)
+	if err != nil {
+		die("%v", err)
+	}
+	s := rewrite(f, string(b), "func GetTime() time.Time {\n", "func GetTime() time.Time {\n\tif verifClock != nil {\n\t\treturn verifClock()\n\t}\n", 1)
+	p := filepath.Join(out, "utility_time.go")
+	os.WriteFile(p, []byte(s), 0o644)
+	replace[f] = p
+}
